@@ -22,7 +22,7 @@ RULE = ("broadband AP contents (random walk + white noise + slow oscillations, n
 ASSUMPTIONS = ["reference low-pass = the converter's own published design (2nd order Butterworth, Wn=0.2 re. AP Nyquist) applied forward-backward to "
                "the WHOLE trace with scipy.signal.sosfiltfilt", "'away from the two file edges' = 50 LF samples (600 AP samples) at either end",
                "1 LSB tolerance: bound < 1 + 1e-3 to absorb the float32 calibration round trip"]
-REQUIRED = {"lf_files_compared": 12, "reruns_same_object": 3, "window_pairs_compared": 6, "sync_columns_compared": 12, "lf_meta_checked": 12, "reference_compared": 12, "int16_wide_contents": 2, "long_cbin_cases": 1, "calibrated_rate_headers": 1}
+REQUIRED = {"lf_files_compared": 12, "reruns_same_object": 3, "window_pairs_compared": 6, "sync_columns_compared": 12, "lf_meta_checked": 12, "reference_compared": 12, "int16_wide_contents": 2, "long_cbin_cases": 1, "calibrated_rate_headers": 1, "saved_channel_subsets": 1}
 CASE_TIMEOUT = 200.0
 MAX_PROCS = 12
 
@@ -129,18 +129,27 @@ def run_case(case):
     else:
         mode = "np21"
         sites = G.draw_sites(rng, "NP2.1", 384, str(rng.choice(["dense", "random"])))
+        if ci % 6 == 2 or rng.random() < 0.15:
+            # the AP file was saved with a SUBSET of the acquired channels (snsApLfSy = k,0,1 with k < 384): k AP columns followed by the sync word
+            nsub = int(rng.choice([96, 192, 300]))
+            sites = G.draw_sites(rng, "NP2.1", nsub, str(rng.choice(["dense", "random"])))
+            mode = f"np21-{nsub}-saved"
+            res.count("saved_channel_subsets")
     wide = rng.random() < 0.35
     raw = broadband(rng, ns, gain[1], wide=wide)
+    if len(sites) < 384:
+        raw = np.ascontiguousarray(raw[:, np.r_[np.arange(len(sites)), 384]])
+    nap = raw.shape[1] - 1
     wins = [1200, 1800, 2400, 3600, 60000, 12 * int(rng.integers(49, 300))]
     wsel = [1200] + [int(v) for v in rng.choice(wins[1:], 2, replace=False)]
     compress = rng.random() < 0.25 or forced
     cbin_orig = rng.random() < 0.25 and not forced
-    label0 = f"{kind} gain={gain[0]}/{gain[1]} ns={ns} layout={mode} compress={compress} original={'cbin' if cbin_orig else 'bin'}" + (f" amplitude up to {int(np.max(np.abs(raw[:, :384])))} counts" if wide else "")
+    label0 = f"{kind} gain={gain[0]}/{gain[1]} ns={ns} layout={mode} compress={compress} original={'cbin' if cbin_orig else 'bin'}" + (f" amplitude up to {int(np.max(np.abs(raw[:, :nap])))} counts" if wide else "")
     if wide:
         res.count("int16_wide_contents")
     # reference: whole-trace zero-phase low-pass, then every 12th sample, in integer units
     sos = scipy.signal.butter(N=2, Wn=0.2, btype="lowpass", output="sos")
-    ref = scipy.signal.sosfiltfilt(sos, raw[:, :384].astype(np.float64), axis=0)[::12]
+    ref = scipy.signal.sosfiltfilt(sos, raw[:, :nap].astype(np.float64), axis=0)[::12]
     nlf = -(-ns // 12)
     fs_hdr = float(rng.choice([30000.0, 30000.390639481, 29999.757983, 30000.75]))
     label0 += f" imSampRate={fs_hdr}"
@@ -180,7 +189,7 @@ def run_case(case):
         except Exception as e:
             res.exception("lfp:exception", e, label)
             continue
-        cols = np2.shank_columns(rec) if kind == "NP2.4" else {0: np.arange(385)}
+        cols = np2.shank_columns(rec) if kind == "NP2.4" else {0: np.arange(nap + 1)}
         per = {}
         for s, c in cols.items():
             folder = root / (f"probe00{chr(97 + s)}" if kind == "NP2.4" else "probe00")
@@ -195,7 +204,7 @@ def run_case(case):
                 continue
             per[s] = got
             # sync = every 12th AP sync word
-            res.check(np.array_equal(got[:, -1], raw[::12, 384]), "lfp:sync", f"{label}: shank {s}: LF sync column is not every 12th AP sync word",
+            res.check(np.array_equal(got[:, -1], raw[::12, -1]), "lfp:sync", f"{label}: shank {s}: LF sync column is not every 12th AP sync word",
                       counter="sync_columns_compared")
             # reference comparison away from the edges
             e = 50
